@@ -39,7 +39,8 @@ package server
 // from C07 "every ... unexpected ... message ... yields the NOTIFICATION code/subcode and next state the RFCs prescribe":
 // an OPEN arriving in Established is an FSM error (RFC 4271 8.2.2 event 19, RFC 6608 4) - it is never passed on to
 // the server like a routing message
-//@   at-call h.callback(fmsg) requires m.Header.Type != bgp.BGP_MSG_OPEN
+//@   at-call h.callback(fmsg) requires msgType != bgp.BGP_MSG_OPEN
+//@   at-call ^bgp.NewBGPNotificationMessage(bgp.BGP_ERROR_FSM_ERROR requires msgType == bgp.BGP_MSG_OPEN && arg1 == bgp.BGP_ERROR_SUB_RECEIVE_UNEXPECTED_MESSAGE_IN_ESTABLISHED_STATE
 //@   at-call table.DiscardAs4Attrs( requires !h.fsm.twoByteAsTrans
 //@   at-call table.DiscardAs4Attrs( requires handling == bgp.ERROR_HANDLING_NONE || handling == bgp.ERROR_HANDLING_ATTRIBUTE_DISCARD ==> called(ValidateUpdateMsg)
 
